@@ -98,8 +98,8 @@ class Recorder:
         except Exception as ex:
             import traceback
             tb_ = traceback.extract_tb(ex.__traceback__)
-            where = [f for f in tb_ if '/repo/' in f.filename]
-            loc = f' at {where[-1].filename.split("/repo/")[-1]}:{where[-1].lineno}' if where else ''
+            where = [f for f in tb_ if '/panqec/' in f.filename and '/site-packages/' not in f.filename]
+            loc = f' at {"panqec/" + where[-1].filename.split("/panqec/")[-1]}:{where[-1].lineno}' if where else ''
             ev['raised'] = f'{type(ex).__name__}: {str(ex)[:80]}{loc}'
         self.events.append(ev)
         return ev
